@@ -19,7 +19,12 @@ bool sim_is_in_sut();
 size_t sim_ledger_live(std::string *detail = nullptr);  // live SUT-allocated blocks
 uint64_t sim_total_allocs();
 uint64_t sim_total_faults();
-struct InSut { InSut() { sim_in_sut(true); } ~InSut() { sim_in_sut(false); } };
+int  sim_lock_depth();
+void sim_note_depth_change(int delta);       // a single SUT call returned with the lock depth changed
+int  sim_take_depth_change();                // first recorded change since the last take (0 = none)
+// every call into the SUT goes through one of these guards; InSut also checks "same lock depth on return as on entry"
+struct InSut { int d0; InSut() { sim_in_sut(true); d0 = sim_lock_depth(); } ~InSut() { int d = sim_lock_depth() - d0; if (d) sim_note_depth_change(d); sim_in_sut(false); } };
+struct InSutLock { InSutLock() { sim_in_sut(true); } ~InSutLock() { sim_in_sut(false); } };   // for the container's own lock()/unlock()
 
 // ------------------------------------------------------------ file layer
 void sim_fopen_fail(int n);                  // the next n fopen() calls made by the SUT on this thread fail (EACCES)
